@@ -57,3 +57,8 @@ Fixpoint trim_end_matches (s : list Z) (c : Z) : list Z :=
               end
   end.
 Definition containsZ (s : list Z) (c : Z) : bool := existsb (fun x => x =? c) s.
+
+(** `r.read_exact(&mut buf)` on a buffer of n bytes: the next n bytes of the input and the rest, or [None] when fewer
+    than n bytes are left (read_exact's UnexpectedEof) *)
+Definition take_exact (n : Z) (l : list Z) : option (list Z * list Z) :=
+  if lenZ l <? n then None else Some (firstn (Z.to_nat n) l, skipn (Z.to_nat n) l).
